@@ -262,6 +262,41 @@ Theorem c02_recipients_are_subscribers : forall ops st0 px s f,
 Proof. intros ops st0 px s f H. exact (recipients_are_subscribers _ px s f (run_inv ops st0 H)). Qed.
 Print Assumptions c02_recipients_are_subscribers.
 
+(* ---- the {info} branch of the same loop (note relays) ------------------------------------------- *)
+(* [info_eligible] = not the originating session (SkipSid), and - unless the frame was forwarded from
+   another topic (Src != "") - not a channel subscription and the acting user has R; not a session
+   already notified on SkipTopic; a "kp" never to a session of the typist.  Exact recipient set of
+   every {info} broadcast, from EVERY state. *)
+Theorem c02_info_exact_set : forall st ix,
+  Permutation (map fst (info_fanout st ix)) (map fst (filter (info_eligible st ix) (st_sess st))) /\
+  (wf_sess st -> NoDup (map fst (info_fanout st ix))) /\
+  (forall s, In s (map fst (info_fanout st ix)) <->
+             exists d, In (s, d) (st_sess st) /\ info_eligible st ix (s, d) = true).
+Proof. exact info_exact_set. Qed.
+Print Assumptions c02_info_exact_set.
+
+(* A relayed {note}: every delivered {info} goes to an attached session other than the originating
+   one, that is not a channel subscription, of a user with R, and for "kp" not of the typist; it names
+   the true sender, the kind and the id of the note. *)
+Theorem c02_info_note_relay_sound : forall st nx s f,
+  In (s, f) (isent (note_relay st nx)) ->
+  note_permitted st nx = true /\
+  exists d, In (s, d) (st_sess st) /\
+    s <> nx_sid nx /\ ss_chan d = false /\ user_is_reader st (ss_uid d) = true /\
+    (nx_what nx = W_KP -> ss_uid d <> nx_from nx) /\ is_full st s = false /\
+    i_from f = nx_from nx /\ i_what f = nx_what nx /\ i_seq f = nx_seq nx.
+Proof. exact note_relay_recipients. Qed.
+Print Assumptions c02_info_note_relay_sound.
+
+(* ... and every such session gets one (delivered, or dropped with the session if its queue is full) *)
+Theorem c02_info_note_relay_complete : forall st nx s d,
+  note_permitted st nx = true -> In (s, d) (st_sess st) ->
+  s <> nx_sid nx -> ss_chan d = false -> user_is_reader st (ss_uid d) = true ->
+  (nx_what nx = W_KP -> ss_uid d <> nx_from nx) ->
+  In s (map fst (note_relay st nx)).
+Proof. exact note_relay_complete. Qed.
+Print Assumptions c02_info_note_relay_complete.
+
 (* ---- the hypotheses are satisfiable ---------------------------------------------------------------- *)
 Example ex_accepts : accepts w1_st w1_px = true. Proof. reflexivity. Qed.
 Example ex_inv : inv w1_init. Proof. apply init_inv. intros u p [H|[]]. inversion H. cbn. discriminate. Qed.
@@ -272,6 +307,9 @@ Example ex_wf_users : wf_users w1_st. Proof. unfold wf_users. cbn. repeat constr
 (* an overflow really happens in the model: session 2's queue is full, it gets no copy and is detached *)
 Definition w4_st : state := mkState KGrp 1 47 [(1, mkPud 255 255 false false 0 1%Z); (2, mkPud 47 47 false false 0 1%Z)]
                                     [(1, mkPsd 1 false); (2, mkPsd 2 false)] 0%Z [2] [] [].
+Example ex_note_permitted : note_permitted w1_st (mkNx 1 1 false TGrp W_KP 0%Z) = true /\
+  map fst (note_relay w1_st (mkNx 1 1 false TGrp W_KP 0%Z)) = [4].
+Proof. vm_compute. split; reflexivity. Qed.
 Example ex_overflow :
   overflowed (fanout_all w4_st (mkPx 1 1 1 TGrp false true 7 [])) = [2] /\
   map fst (fanout w4_st (mkPx 1 1 1 TGrp false true 7 [])) = [1] /\
